@@ -15,7 +15,11 @@ func c14Key(tag string) map[string]interface{} {
 }
 
 func c14Service(tag string) map[string]interface{} {
-	return map[string]interface{}{"id": verifrt.AnyAtom(tag + "-id"), "type": "svc", "serviceEndpoint": "https://example.com/" + verifrt.AnyAtom(tag+"-ep")}
+	ep := "https://example.com/" + verifrt.AnyAtom(tag+"-ep")
+	if verifrt.Choose(tag+"-percent", 2) == 1 {
+		ep = "https://example.com/my%20hub/" + verifrt.AnyAtom(tag+"-ep") // percent-escaped character in the URI
+	}
+	return map[string]interface{}{"id": verifrt.AnyAtom(tag + "-id"), "type": "svc", "serviceEndpoint": ep}
 }
 
 func mustJSON(v interface{}) string {
